@@ -55,11 +55,39 @@ def order_check(case, plan, out):
     return vs
 
 
+def doc_post(doc, tape):
+    """Sometimes other operations surround the mutation (which is then selected by operation_name)."""
+    from simv.model.document import Field, Operation
+    t = tape.sub("doc_post")
+    if t.chance(35):
+        doc.defs.insert(0, Operation("query", "LeadingQuery", [], [Field("__typename")]))
+    if t.chance(20):
+        doc.defs.append(Operation("query", "TrailingQuery", [], [Field("__typename", "tn")]))
+    for d in doc.defs:
+        if d.kind == "operation" and d.op == "mutation" and not d.name and len(doc.operations()) > 1:
+            d.name = "TheMutation"
+
+
+def pick_op(case, tape):
+    muts = [o for o in case.doc.operations() if o.op == "mutation"]
+    if muts:
+        op = muts[tape.draw("vars", len(muts))]
+        case.op = op
+        case.op_name = op.name if (len(case.doc.operations()) > 1 or op.name) else None
+        from simv.gen.document import gen_variables
+        case.variables = gen_variables(case.schema, tape, op, stream="vars_mut")
+
+
 def run_one(seed, preset=None, tier="quick", want_case=False):
-    r = run_single(ID, seed, preset, want_case,
-                   schema_knobs={"mutation_pct": 100, "default_impl_pct": 15},
-                   doc_knobs={"op_kinds": ("mutation",), "max_ops": 1, "max_depth": 3},
-                   faults_fn=faults_fn, extra_check=order_check)
+    def schema_knobs(t):
+        return {"mutation_pct": 100, "default_impl_pct": 15, "rename_roots_pct": 30, "root_default_impl": t.chance(30),
+                "lag_pct": t.choose([0, 0, 20])}
+
+    def doc_knobs(t):
+        return {"op_kinds": ("mutation",), "max_ops": t.choose([1, 1, 2]), "max_depth": 3, "max_sel": t.choose([5, 5, 8])}
+
+    r = run_single(ID, seed, preset, want_case, schema_knobs=schema_knobs, doc_knobs=doc_knobs,
+                   faults_fn=faults_fn, extra_check=order_check, doc_post=doc_post, pick_op=pick_op)
     plan, out = r["_plan"], r["_out"]
     is_mut = plan.op is not None and plan.op.op == "mutation"
     nested = any(len(c[0]) > 1 for c in out.rt.calls)
